@@ -155,9 +155,18 @@ def r1_acks(report, repo):
       return 'wrte-row: %d OKAYs for an enqueued WRTE' % len(oks)
     if not v['is_wrte'] and oks:
       return 'other-row: OKAY sent for a non-WRTE message'
-    sets = p.calls(name='self._set_or_check_remote_id')
+    # the remote id is set from / compared with the message's arg0 (a helper
+    # doing this is inlined by the loader)
+    sets = [n for n, _ in p.steps if (n.kind == 'stmt' and isinstance(
+        n.ast, ast.Assign) and dotted(n.ast.targets[0]) == 'self.remote_id' and
+                                    dotted(n.ast.value) == emsg + '.arg0') or (
+                                        n.kind == 'test' and isinstance(
+                                            n.ast, ast.Compare) and
+                                        {dotted(n.ast.left), dotted(
+                                            n.ast.comparators[0])} ==
+                                        {'self.remote_id', emsg + '.arg0'})]
     if v['is_okay']:
-      if len(sets) != 1 or dotted(sets[0].args[0]) != emsg + '.arg0':
+      if len(sets) != 1:
         return ('okay-row: an OKAY dispatched by another stream\'s reader '
                 'must set / check the remote id (else the first WRTE that '
                 'follows cannot be acknowledged)')
@@ -521,18 +530,43 @@ def r7_buffer(report, repo):
   report.expect_instances(rule, n, 5, 'read-buffer mutations')
   f = repo.func(AP, ST + '.read')
   pred = core.calls_in(f.node, name='self._read_messages_until_true')
-  ok = len(pred) == 1 and isinstance(pred[0].args[0], ast.Lambda) and \
-      'self._buffer_size' in norm(pred[0].args[0].body) and 'length' in norm(
-          pred[0].args[0].body)
+  ptxt = ''
+  if len(pred) == 1 and pred[0].args:
+    a0 = pred[0].args[0]
+    if isinstance(a0, ast.Lambda):
+      ptxt = norm(a0.body)
+    elif isinstance(a0, ast.Name):
+      # a named local predicate function
+      for d_ in f.node.body:
+        if isinstance(d_, ast.FunctionDef) and d_.name == a0.id:
+          ptxt = ' '.join(norm(x.value) for x in ast.walk(d_)
+                          if isinstance(x, ast.Return) and x.value is not None)
+  ok = len(pred) == 1 and 'self._buffer_size' in ptxt and \
+      lib.param_names(f.node)[1] in ptxt
   report.check(ok, rule, f.qualname, 'waits-for-data', f.node,
                'read() waits until enough bytes are buffered')
   sz = [n_ for n_ in walk_no_nested(f.node) if isinstance(n_, ast.Assign) and
         dotted(n_.targets[0]) == 'self._buffer_size']
   # the remainder is what is put back at the front of the buffer
-  back = [dotted(c.args[0]) for c in core.calls_in(f.node, attr='appendleft')
-          if c.args]
-  ok = len(sz) == 1 and call_name(sz[0].value) == 'len' and len(back) == 1 \
-      and dotted(sz[0].value.args[0]) == back[0]
+  gr = lib.cfg(f)
+  backs = [(n_, c) for n_, c in lib.nodes_with_call(gr) if last_attr(c) in (
+      'appendleft', 'append', 'extendleft', 'extend', 'insert') and
+           dotted(c.func.value) == 'self._read_buffer' and c.args]
+
+  def same_path(a_, b_):
+    return a_ is b_ or gr.dominated_by(a_, lambda x: x is b_) or \
+        gr.dominated_by(b_, lambda x: x is a_)
+  ok = bool(sz)
+  for a_ in sz:
+    an = gr.nodes_of(a_)
+    rel = [(n_, c) for n_, c in backs if any(same_path(x, n_) for x in an)]
+    if call_name(a_.value) == 'len' and a_.value.args:
+      ok = ok and any(dotted(c.args[-1]) == dotted(a_.value.args[0])
+                      for _, c in rel)
+    elif isinstance(a_.value, ast.Constant) and a_.value.value == 0:
+      ok = ok and not rel
+    else:
+      ok = False
   report.check(ok, rule, f.qualname, 'size-of-pushback', f.node,
                'the buffer size becomes the size of the unread remainder')
 
